@@ -225,7 +225,7 @@ func runC09(rc *RunCtx) {
 		ExtraStores: nil}
 	depth, budget, maxTraces := 3, 100*time.Second, 1500
 	if rc.Thorough() {
-		depth, budget, maxTraces = 4, 20*time.Minute, 20000
+		depth, budget, maxTraces = 8, 25*time.Minute, 20000
 	}
 	runScenarioCheck(rc, scn, depth, budget, maxTraces, "")
 	rc.Cov["cfesignature_msgs_at_msg_server_seam"] = true
